@@ -1,8 +1,411 @@
-//! C17 – TileJSON part (model streams C17t/C17u, containers, served tiles.json).
+//! C17 – TileJSON part tied to the Lean model (`VtModel/TileJson.lean`):
+//!   `C17t <tree>`                       → `ok <tree of as_object(from_object(obj))>` | `err`
+//!   `C17u <tree> <w,s,e,n|-> <zmin|-> <zmax|->` → document after limit_bbox / limit_min_zoom / limit_max_zoom
+//!   `C17m <treeA> <treeB>`              → `merge`
+//! (numbers inside trees: hex of `f64::to_string`; in answers: f64 bit patterns)
+//! Direct oracles: from_object(as_object(t)) == t, TileJSON::try_from(t.as_string()) == t,
+//! update_from_pyramid only narrows, default.merge(t) == t.
+use super::{gen_f64, gen_string, hexs, parse_tree, tree, NumStyle};
 use crate::common::*;
+use serde_json::json;
+use std::collections::BTreeMap;
+use versatiles_core::json::{JsonArray, JsonObject, JsonValue};
+use versatiles_core::tilejson::TileJSON;
+use versatiles_core::types::{GeoBBox, TileBBox, TileBBoxPyramid};
 
-pub fn replay_line(out: &mut Out, line: &str) {
-	out.notes.push(format!("unknown replay line {line}"));
+fn num(x: f64) -> JsonValue {
+	JsonValue::Number(x)
+}
+fn s(x: &str) -> JsonValue {
+	JsonValue::String(x.to_string())
 }
 
-pub fn run(_args: &Args, _out: &mut Out, _rng: &mut Rng) {}
+fn gen_key(rng: &mut Rng) -> String {
+	match rng.below(8) {
+		0 => rng.pick(&["name", "description", "attribution", "version", "scheme", "legend", "template", "type", "format"]).to_string(),
+		1 => rng.pick(&["tiles", "data", "grids"]).to_string(),
+		2 => rng.pick(&["minzoom", "maxzoom", "fillzoom"]).to_string(),
+		3 => "tilejson".to_string(),
+		// neighbours of the typed keys in the map order
+		4 => rng.pick(&["bound", "boundsa", "bounds ", "centeR", "center0", "vector_layer", "vector_layers2", "a", "z", "", "\u{10ffff}"]).to_string(),
+		_ => {
+			let k = gen_string(rng);
+			if k == "bounds" || k == "center" || k == "vector_layers" {
+				"x".into()
+			} else {
+				k
+			}
+		}
+	}
+}
+
+fn gen_byte(rng: &mut Rng) -> f64 {
+	match rng.below(6) {
+		0 => 0.0,
+		1 => 255.0,
+		2 => rng.below(31) as f64,
+		_ => rng.below(256) as f64,
+	}
+}
+
+fn gen_bbox(rng: &mut Rng) -> [f64; 4] {
+	let w = (rng.below(3_400_000) as f64) / 1e4 - 180.0;
+	let s = (rng.below(1_600_000) as f64) / 1e4 - 85.0;
+	let e = (w + (rng.below(400_000) as f64 + 1.0) / 1e4).min(180.0);
+	let n = (s + (rng.below(400_000) as f64 + 1.0) / 1e4).min(85.05);
+	match rng.below(8) {
+		0 => [-180.0, -90.0, 180.0, 90.0],
+		1 => [gen_f64(rng), gen_f64(rng), gen_f64(rng), gen_f64(rng)],
+		_ => [w, s, e, n],
+	}
+}
+
+fn gen_layer(rng: &mut Rng) -> JsonValue {
+	let mut m = BTreeMap::new();
+	m.insert("id".to_string(), s(&if rng.chance(3, 4) { format!("layer{}", rng.below(4)) } else { gen_string(rng) }));
+	if rng.chance(4, 5) {
+		let mut f = BTreeMap::new();
+		for _ in 0..rng.below(4) {
+			f.insert(if rng.chance(1, 2) { format!("f{}", rng.below(5)) } else { gen_string(rng) }, s(&if rng.chance(1, 2) { "String".into() } else { gen_string(rng) }));
+		}
+		m.insert("fields".to_string(), JsonValue::Object(JsonObject(f)));
+	}
+	if rng.chance(1, 2) {
+		m.insert("description".to_string(), s(&gen_string(rng)));
+	}
+	if rng.chance(1, 2) {
+		m.insert("minzoom".to_string(), num(gen_byte(rng)));
+	}
+	if rng.chance(1, 2) {
+		m.insert("maxzoom".to_string(), num(gen_byte(rng)));
+	}
+	JsonValue::Object(JsonObject(m))
+}
+
+/// a JSON object that `from_object` should accept (`wild = false`) or may reject (`wild = true`)
+pub fn gen_doc_object(rng: &mut Rng, wild: bool) -> JsonObject {
+	let mut m: BTreeMap<String, JsonValue> = BTreeMap::new();
+	for _ in 0..rng.below(7) {
+		let k = gen_key(rng);
+		let v = match rng.below(if wild { 12 } else { 9 }) {
+			0..=3 => s(&gen_string(rng)),
+			4..=5 => JsonValue::Array(JsonArray((0..rng.below(4)).map(|_| s(&gen_string(rng))).collect())),
+			6..=8 => num(gen_byte(rng)),
+			9 => num(*rng.pick(&[-1.0, -0.5, 255.5, 256.0, 3.7, 254.999, 1e300, -0.0, 0.99])),
+			10 => JsonValue::Array(JsonArray(vec![s("a"), num(1.0)])),
+			_ => rng.pick(&[JsonValue::Null, JsonValue::Boolean(true), JsonValue::Object(JsonObject::default())]).clone(),
+		};
+		m.insert(k, v);
+	}
+	if rng.chance(1, 2) {
+		let b = gen_bbox(rng);
+		let mut xs: Vec<JsonValue> = b.iter().map(|x| num(*x)).collect();
+		if wild && rng.chance(1, 4) {
+			match rng.below(3) {
+				0 => {
+					xs.pop();
+				}
+				1 => xs.push(num(1.0)),
+				_ => xs[1] = s("x"),
+			}
+		}
+		m.insert("bounds".into(), JsonValue::Array(JsonArray(xs)));
+	}
+	if rng.chance(1, 2) {
+		let z = if wild { *rng.pick(&[0.0, 7.0, 30.0, 255.0, 256.0, 300.5, -1.0, 12.7]) } else { rng.below(31) as f64 };
+		let mut xs = vec![num((rng.below(3_600_000) as f64) / 1e4 - 180.0), num((rng.below(1_700_000) as f64) / 1e4 - 85.0), num(z)];
+		if wild && rng.chance(1, 4) {
+			xs.pop();
+		}
+		m.insert("center".into(), JsonValue::Array(JsonArray(xs)));
+	}
+	if rng.chance(1, 2) {
+		let mut ls: Vec<JsonValue> = (0..rng.below(4)).map(|_| gen_layer(rng)).collect();
+		if wild && rng.chance(1, 4) && !ls.is_empty() {
+			ls[0] = match rng.below(4) {
+				0 => s("x"),
+				1 => JsonValue::Object(JsonObject(BTreeMap::from([("fields".to_string(), JsonValue::Object(JsonObject::default()))]))), // no id
+				2 => JsonValue::Object(JsonObject(BTreeMap::from([("id".to_string(), num(1.0))]))),
+				_ => JsonValue::Object(JsonObject(BTreeMap::from([("id".to_string(), s("q")), ("fields".to_string(), JsonValue::Object(JsonObject(BTreeMap::from([("k".to_string(), num(1.0))]))))]))),
+			};
+		}
+		m.insert("vector_layers".into(), JsonValue::Array(JsonArray(ls)));
+	}
+	JsonObject(m)
+}
+
+fn doc_tree(o: &JsonObject) -> String {
+	tree(&JsonValue::Object(o.clone()), NumStyle::Text)
+}
+fn show_tj(t: &TileJSON) -> String {
+	format!("ok {}", tree(&JsonValue::Object(t.as_object()), NumStyle::Bits))
+}
+
+fn rich(o: &JsonObject) -> bool {
+	let mut n = 0;
+	for k in ["bounds", "center", "vector_layers"] {
+		if o.0.contains_key(k) {
+			n += 1;
+		}
+	}
+	if o.0.values().any(|v| matches!(v, JsonValue::Array(_))) {
+		n += 1;
+	}
+	if o.0.values().any(|v| matches!(v, JsonValue::Number(_))) {
+		n += 1;
+	}
+	n >= 2
+}
+
+/// strict equality of two TileJSON values through their objects (numbers by bits)
+fn same_tj(a: &TileJSON, b: &TileJSON) -> bool {
+	super::same(&JsonValue::Object(a.as_object()), &JsonValue::Object(b.as_object())) && a == b
+}
+
+fn emit_t(out: &mut Out, o: &JsonObject) {
+	let line = format!("C17t {}", doc_tree(o));
+	let r = catch(|| TileJSON::from_object(o));
+	let ans = match &r {
+		Ok(Ok(t)) => show_tj(t),
+		Ok(Err(_)) => "err".into(),
+		Err(_) => "panic".into(),
+	};
+	out.case(&line, &ans, rich(o) && ans != "err");
+	out.count(&format!("tj_from_object_{}", ans.split(' ').next().unwrap()));
+	if let Ok(Ok(t)) = &r {
+		// direct oracle: the object mapping and the text mapping hand back the same document
+		let back = catch(|| TileJSON::from_object(&t.as_object()));
+		let ok1 = matches!(&back, Ok(Ok(u)) if same_tj(t, u));
+		out.oracle(ok1, "C17 tilejson: from_object(as_object(t)) != t", json!({"kind": "tj-object-roundtrip"}), json!({"case": line, "given": t.as_string()}));
+		let text = t.as_string();
+		let back2 = catch(|| TileJSON::try_from(text.as_str()));
+		let ok2 = matches!(&back2, Ok(Ok(u)) if same_tj(t, u));
+		out.oracle(ok2, "C17 tilejson: try_from(as_string(t)) != t", json!({"kind": "tj-text-roundtrip"}), json!({"case": line, "text": trunc(&text, 400)}));
+		// default.merge(t) == t (what the tar and directory readers do with the stored document)
+		let merged = catch(|| {
+			let mut d = TileJSON::default();
+			d.merge(t).map(|_| d)
+		});
+		let ok3 = matches!(&merged, Ok(Ok(u)) if same_tj(t, u));
+		out.oracle(ok3, "C17 tilejson: default.merge(t) != t", json!({"kind": "tj-merge-default"}), json!({"case": line, "given": t.as_string()}));
+		// accepted keys keep their meaning: every key of the input object is a key of the document
+		let obj = t.as_object();
+		let lost: Vec<&String> = o.0.keys().filter(|k| obj.get(k).is_none() && !(k.as_str() == "vector_layers" && t.vector_layers.0.is_empty())).collect();
+		out.oracle(lost.is_empty(), "C17 tilejson: accepted key missing from the document", json!({"kind": "tj-key-lost"}), json!({"case": line, "lost": lost}));
+	}
+}
+
+fn bbox_arg(b: &Option<[f64; 4]>) -> String {
+	match b {
+		None => "-".into(),
+		Some(b) => b.iter().map(|x| hexs(x.to_string().as_bytes())).collect::<Vec<_>>().join(","),
+	}
+}
+fn z_arg(z: Option<u8>) -> String {
+	z.map_or("-".into(), |z| z.to_string())
+}
+
+fn get_bounds(t: &TileJSON) -> Option<[f64; 4]> {
+	t.bounds.map(|b| b.as_array())
+}
+fn get_byte(t: &TileJSON, k: &str) -> Option<u8> {
+	match t.as_object().get(k) {
+		Some(JsonValue::Number(n)) => Some(*n as u8),
+		_ => None,
+	}
+}
+
+/// oracle for "only narrows": written from the statement, not from the code
+fn narrowed_ok(before: &TileJSON, after: &TileJSON, bbox: &Option<[f64; 4]>, zmin: Option<u8>, zmax: Option<u8>) -> Result<(), String> {
+	let (ob, oa) = (before.as_object(), after.as_object());
+	for (k, v) in ob.0.iter() {
+		if k == "bounds" || k == "minzoom" || k == "maxzoom" {
+			continue;
+		}
+		match oa.get(k) {
+			Some(w) if super::same(v, w) => {}
+			_ => return Err(format!("key {k:?} changed or lost")),
+		}
+	}
+	for k in oa.0.keys() {
+		if ob.get(k).is_none() && !(k == "bounds" && bbox.is_some()) && !(k == "minzoom" && zmin.is_some()) && !(k == "maxzoom" && zmax.is_some()) {
+			return Err(format!("key {k:?} appeared"));
+		}
+	}
+	match (get_bounds(before), bbox, get_bounds(after)) {
+		(None, None, None) => {}
+		(Some(b), None, Some(a)) if a.iter().zip(b.iter()).all(|(x, y)| x.to_bits() == y.to_bits()) => {}
+		(None, Some(c), Some(a)) if a.iter().zip(c.iter()).all(|(x, y)| x.to_bits() == y.to_bits()) => {}
+		(Some(b), Some(c), Some(a)) => {
+			// intersection: lower edges = the larger, upper edges = the smaller
+			let want = [b[0].max(c[0]), b[1].max(c[1]), b[2].min(c[2]), b[3].min(c[3])];
+			if !a.iter().zip(want.iter()).all(|(x, y)| x == y) {
+				return Err(format!("bounds {a:?}, expected intersection {want:?}"));
+			}
+		}
+		(x, y, z) => return Err(format!("bounds before {x:?} coverage {y:?} after {z:?}")),
+	}
+	let old_min = get_byte(before, "minzoom");
+	let want_min = match (old_min, zmin) {
+		(Some(m), Some(z)) => Some(m.max(z)),
+		(None, Some(z)) => Some(z),
+		(m, None) => m,
+	};
+	if zmin.is_some() && get_byte(after, "minzoom") != want_min {
+		return Err(format!("minzoom {:?}, expected {want_min:?}", get_byte(after, "minzoom")));
+	}
+	let old_max = get_byte(before, "maxzoom");
+	let want_max = match (old_max, zmax) {
+		(Some(m), Some(z)) => Some(m.min(z)),
+		(None, Some(z)) => Some(z),
+		(m, None) => m,
+	};
+	if zmax.is_some() && get_byte(after, "maxzoom") != want_max {
+		return Err(format!("maxzoom {:?}, expected {want_max:?}", get_byte(after, "maxzoom")));
+	}
+	Ok(())
+}
+
+fn emit_u(out: &mut Out, o: &JsonObject, bbox: Option<[f64; 4]>, zmin: Option<u8>, zmax: Option<u8>) {
+	let line = format!("C17u {} {} {} {}", doc_tree(o), bbox_arg(&bbox), z_arg(zmin), z_arg(zmax));
+	let Ok(Ok(t0)) = catch(|| TileJSON::from_object(o)) else {
+		out.case(&line, "err", false);
+		return;
+	};
+	let r = catch(|| {
+		let mut t = t0.clone();
+		if let Some(b) = bbox {
+			t.limit_bbox(GeoBBox(b[0], b[1], b[2], b[3]));
+		}
+		if let Some(z) = zmin {
+			t.limit_min_zoom(z);
+		}
+		if let Some(z) = zmax {
+			t.limit_max_zoom(z);
+		}
+		t
+	});
+	match r {
+		Ok(t) => {
+			out.case(&line, &show_tj(&t), true);
+			match narrowed_ok(&t0, &t, &bbox, zmin, zmax) {
+				Ok(()) => out.oracle(true, "", json!(null), json!(null)),
+				Err(m) => out.oracle(false, &format!("C17 narrowing: {m}"), json!({"kind": "tj-narrow", "what": m.split(' ').next().unwrap_or("")}), json!({"case": line, "before": t0.as_string(), "after": t.as_string()})),
+			}
+		}
+		Err(m) => {
+			out.case(&line, "panic", true);
+			out.oracle(false, &format!("C17 narrowing: panic {m}"), json!({"kind": "tj-narrow", "what": "panic"}), json!({"case": line}));
+		}
+	}
+}
+
+fn emit_m(out: &mut Out, a: &JsonObject, b: &JsonObject) {
+	let line = format!("C17m {} {}", doc_tree(a), doc_tree(b));
+	let (Ok(Ok(ta)), Ok(Ok(tb))) = (catch(|| TileJSON::from_object(a)), catch(|| TileJSON::from_object(b))) else {
+		out.case(&line, "err", false);
+		return;
+	};
+	let r = catch(|| {
+		let mut t = ta.clone();
+		t.merge(&tb).map(|_| t)
+	});
+	let ans = match &r {
+		Ok(Ok(t)) => show_tj(t),
+		Ok(Err(_)) => "err".into(),
+		Err(_) => "panic".into(),
+	};
+	out.case(&line, &ans, true);
+}
+
+/// `update_from_pyramid` of the real code = the three limit calls with the pyramid's own summary
+fn pyramid_oracle(out: &mut Out, rng: &mut Rng, o: &JsonObject) {
+	let Ok(Ok(t0)) = catch(|| TileJSON::from_object(o)) else { return };
+	let mut p = TileBBoxPyramid::new_empty();
+	let z0 = rng.range(0, 10) as u8;
+	let z1 = (z0 + rng.below(4) as u8).min(12);
+	if rng.chance(9, 10) {
+		for z in z0..=z1 {
+			let n = 1u32 << z;
+			let x = rng.below(n as u64) as u32;
+			let y = rng.below(n as u64) as u32;
+			let x2 = (x + rng.below(3) as u32).min(n - 1);
+			let y2 = (y + rng.below(3) as u32).min(n - 1);
+			p.include_bbox(&TileBBox::new(z, x, y, x2, y2).unwrap());
+		}
+	}
+	let bbox = p.get_geo_bbox().map(|b| b.as_array());
+	let (zmin, zmax) = (p.get_zoom_min(), p.get_zoom_max());
+	let r = catch(|| {
+		let mut t = t0.clone();
+		t.update_from_pyramid(&p);
+		t
+	});
+	let key = format!("C17 pyramid {} {:?} {:?} {:?}", doc_tree(o), bbox, zmin, zmax);
+	out.eval(&key, true);
+	out.count("tj_update_from_pyramid");
+	match r {
+		Ok(t) => match narrowed_ok(&t0, &t, &bbox, zmin, zmax) {
+			Ok(()) => out.oracle(true, "", json!(null), json!(null)),
+			Err(m) => out.oracle(false, &format!("C17 narrowing: update_from_pyramid {m}"), json!({"kind": "tj-narrow", "what": m.split(' ').next().unwrap_or("")}), json!({"case": format!("C17u {} {} {} {}", doc_tree(o), bbox_arg(&bbox), z_arg(zmin), z_arg(zmax)), "before": t0.as_string(), "after": t.as_string()})),
+		},
+		Err(m) => out.oracle(false, &format!("C17 narrowing: update_from_pyramid panic {m}"), json!({"kind": "tj-narrow", "what": "panic"}), json!({"case": key})),
+	}
+}
+
+pub fn replay_line(out: &mut Out, line: &str) {
+	let t: Vec<&str> = line.split(' ').collect();
+	let obj = |s: &str| match parse_tree(s) {
+		Some(JsonValue::Object(o)) => Some(o),
+		_ => None,
+	};
+	let bb = |s: &str| -> Option<Option<[f64; 4]>> {
+		if s == "-" {
+			return Some(None);
+		}
+		let v: Vec<f64> = s.split(',').filter_map(|h| String::from_utf8(unhex(h)).ok()?.parse().ok()).collect();
+		(v.len() == 4).then(|| Some([v[0], v[1], v[2], v[3]]))
+	};
+	let zz = |s: &str| -> Option<u8> { s.parse().ok() };
+	match t.as_slice() {
+		["C17t", tr] => match obj(tr) {
+			Some(o) => emit_t(out, &o),
+			None => out.notes.push(format!("unreadable replay line {line}")),
+		},
+		["C17u", tr, b, z0, z1] => match (obj(tr), bb(b)) {
+			(Some(o), Some(b)) => emit_u(out, &o, b, zz(z0), zz(z1)),
+			_ => out.notes.push(format!("unreadable replay line {line}")),
+		},
+		["C17m", a, b] => match (obj(a), obj(b)) {
+			(Some(a), Some(b)) => emit_m(out, &a, &b),
+			_ => out.notes.push(format!("unreadable replay line {line}")),
+		},
+		_ => out.notes.push(format!("unknown replay line {line}")),
+	}
+}
+
+pub fn run(args: &Args, out: &mut Out, rng: &mut Rng) {
+	// boundary documents
+	emit_t(out, &JsonObject::default());
+	for k in ["bounds", "center", "vector_layers", "minzoom", "tilejson", "x"] {
+		for v in [JsonValue::Null, num(1.0), s("x"), JsonValue::Array(JsonArray(vec![])), JsonValue::Array(JsonArray(vec![num(1.0), num(2.0), num(3.0)])), JsonValue::Array(JsonArray(vec![num(1.0), num(2.0), num(3.0), num(4.0)])), JsonValue::Object(JsonObject::default())] {
+			emit_t(out, &JsonObject(BTreeMap::from([(k.to_string(), v)])));
+		}
+	}
+	let n = args.n(1500, 20000);
+	for i in 0..n {
+		let o = gen_doc_object(rng, i % 3 == 2);
+		emit_t(out, &o);
+		if i % 3 != 2 {
+			let bbox = if rng.chance(4, 5) { Some(gen_bbox(rng)).filter(|b| b.iter().all(|x| *x != 0.0 || x.is_sign_positive())) } else { None };
+			let zmin = if rng.chance(4, 5) { Some(rng.below(20) as u8) } else { None };
+			let zmax = if rng.chance(4, 5) { Some(rng.below(31) as u8) } else { None };
+			emit_u(out, &o, bbox, zmin, zmax);
+			pyramid_oracle(out, rng, &o);
+			if i % 6 == 0 {
+				let o2 = gen_doc_object(rng, false);
+				emit_m(out, &o, &o2);
+			}
+		}
+	}
+}
